@@ -26,11 +26,16 @@ def run(chk):
         plans = [("exh-depth1-1d", dict(acts=replay.ALL_ACTS, maxlen=1, preset="1d", sim=False, smax=1, idxpad=0, emit_all=True), 4)]
         if chk.tier != "quick":
             plans.append(("exh-depth1-2d", dict(acts=NO_INDEX, maxlen=1, preset="2d", sim=False, emit_all=True), 8))
-        for label, kw, maxvar in plans:
+        # the same programs under a scaled-down planner configuration: multi-stage rechunk plans with tiny arrays
+        scaled = {"array.rechunk.degree-limit": 2, "array.rechunk.threshold": 1, "array.chunk-size": "16B"}
+        plans = [(lab, kw, mv, None) for lab, kw, mv in plans] + [
+            ("exh-depth1-rechunk-1d7-degree2", dict(acts=["Rechunk"], maxlen=1, preset="1d7", sim=False, emit_all=True), 16, scaled),
+            ("exh-depth1-rechunk-2d-degree2", dict(acts=["Rechunk"], maxlen=1, preset="2d", sim=False, emit_all=True), 4, scaled)]
+        for label, kw, maxvar, cfg in plans:
             behs, res = replay.generate_programs(rundir=rd, timeout=3000, **kw)
             chk.add_tlc(res, f"gen:{label}")
             out = replay.run_corpus(behs, observers=("harness.observers:transfer_estimates",), max_variants=maxvar,
-                                    seed=chk.seed, opts={"no_compute": True})
+                                    seed=chk.seed, opts={"no_compute": True, "config": cfg})
             if out.machinery:
                 raise tlc.MachineryError(f"spec/NumPy disagreement: {out.machinery[0]}")
             n = 0
